@@ -488,6 +488,7 @@ def main(argv=None):
     ap.add_argument("--replay", default=None)
     ap.add_argument("--digests", default=None)
     ap.add_argument("--det", type=int, default=None)
+    ap.add_argument("--idx", type=int, default=None, help="execute one run index in-process (debugging)")
     ap.add_argument("--canary", default=None, help="install the named in-memory mutant (self-test)")
     ap.add_argument("--list-canaries", action="store_true")
     a = ap.parse_args(argv)
@@ -501,6 +502,17 @@ def main(argv=None):
     if a.list_canaries:
         print("\n".join(sorted(getattr(load_scenario(a.prop), "CANARIES", {}))))
         return 0
+    if a.idx is not None:
+        _setup_torch()
+        r = _run_one(a.prop, a.seed, a.tier, a.idx)
+        for rec in r["violations"]:
+            v = rec["violation"]
+            print(f"violation: {v['scope']} {v['monitor']}: {v['message']}")
+            print("detail:", json.dumps({k: x for k, x in v["detail"].items() if k not in ("cfg", "instance")},
+                                        default=_json_default)[:3000])
+            print("replay written:", write_replay(a.prop, rec, tag="-idx"))
+        print(f"idx={a.idx} digest={r['digest']} violations={len(r['violations'])} stats={r['stats']}")
+        return 1 if r["violations"] else 0
     if a.replay:
         return cmd_replay(a.prop, a.replay)
     if a.digests:
